@@ -1,6 +1,7 @@
 #![allow(dead_code)]
 mod c14;
 mod c15;
+mod c16;
 mod c17;
 mod c18;
 mod common;
@@ -21,6 +22,7 @@ fn main() {
     match argv[1].as_str() {
         "c14" => c14::gen(&args),
         "c15" => c15::gen(&args),
+        "c16" => c16::gen(&args),
         "c17" => c17::gen(&args),
         "c18" => c18::gen(&args),
         "c01" => solar::gen_c01(&args),
